@@ -2,6 +2,7 @@ package main
 
 import (
 	"fmt"
+	"os"
 	"go/constant"
 	"go/token"
 	"go/types"
@@ -16,6 +17,24 @@ type obCase struct {
 	pc   []*Term
 	goal *Term
 	note string
+	cut  int // hypotheses from this index on were added after the last loop cut
+	cands []*Term // instantiation candidates (skolem constants, indices read, goal terms)
+	derived bool  // pc already contains the derived facts
+}
+
+// full: the path's facts plus their instances and the unfoldings of recursive spec functions.
+func (c obCase) full() []*Term {
+	return withDerived(c.pc, c.cands, c.goal)
+}
+
+func withDerived(pc []*Term, cands []*Term, goal *Term) []*Term {
+	inst := instancesOfGoal(pc, cands, goal)
+	out := append(append([]*Term(nil), pc...), inst...)
+	unf := unfoldings(append(append([]*Term{}, out...), goal))
+	if os.Getenv("GOVC_DEBUG") != "" {
+		fmt.Fprintf(os.Stderr, "withDerived: raw=%d inst=%d unf=%d cands=%d\n", len(pc), len(inst), len(unf), len(cands))
+	}
+	return append(out, unf...)
 }
 
 type Obligation struct {
@@ -51,6 +70,7 @@ type Verifier struct {
 	noPrune bool
 	errs    []string
 	returned bool
+	havocked map[*Term]bool // variables introduced by the current loop havoc
 	initCells int
 	mut *mutInfo
 }
@@ -72,6 +92,29 @@ func (v *Verifier) addOb(name, kind, clause string, st *State, goal *Term, cover
 		v.obls[name] = ob
 		v.order = append(v.order, name)
 	}
+	if !cover && !goal.IsTrue() {
+		// conjuncts already among the path's facts are discharged syntactically
+		have := map[*Term]bool{}
+		for _, t := range st.pc {
+			have[t] = true
+			if t.Op == "and" {
+				for _, a := range t.Args {
+					have[a] = true
+				}
+			}
+		}
+		if goal.Op == "and" {
+			var rest []*Term
+			for _, a := range goal.Args {
+				if !have[a] {
+					rest = append(rest, a)
+				}
+			}
+			goal = And(rest...)
+		} else if have[goal] {
+			goal = TTrue
+		}
+	}
 	if goal.IsTrue() && !cover {
 		ob.NTriv++
 		return
@@ -80,10 +123,103 @@ func (v *Verifier) addOb(name, kind, clause string, st *State, goal *Term, cover
 	// quantified facts at the skolem constants and at the indices read on the path
 	var sks []*Term
 	goal = skolemise(goal, &sks)
-	ob.Cases = append(ob.Cases, obCase{pc: append(append([]*Term(nil), st.pc...), st.instances(sks)...), goal: goal})
+	// implication introduction: the antecedent's conjuncts become hypotheses of this case, so that
+	// the quantified ones are instantiated like the path's own facts
+	if goal.Op == "=>" {
+		st = st.clone()
+		for goal.Op == "=>" {
+			st.assume(exSkolem(goal.Args[0], &sks))
+			goal = skolemise(goal.Args[1], &sks)
+		}
+	}
+	// applications of specification functions in the goal are instantiation candidates too
+	{
+		seen := map[*Term]bool{}
+		n := 0
+		var rec func(x *Term)
+		rec = func(x *Term) {
+			if seen[x] || n >= 12 {
+				return
+			}
+			seen[x] = true
+			if x.Op == "app" && x.Sort == SInt && !x.open && !x.ground && x.Str != "go_div" && x.Str != "go_rem" {
+				sks = append(sks, x)
+				n++
+			}
+			if x.Op == "select" && x.Args[1].Sort == SInt && !x.Args[1].open {
+				// the index of an array read in the goal
+				dup := false
+				for _, y := range sks {
+					if y == x.Args[1] {
+						dup = true
+					}
+				}
+				if !dup {
+					sks = append(sks, x.Args[1])
+					n++
+				}
+			}
+			for _, a := range x.Args {
+				rec(a)
+			}
+		}
+		rec(goal)
+	}
+	// ... and so are the function's own parameters (for quantifiers over their types)
+	if v.entry != nil && len(v.entry.frames) > 0 {
+		for _, p := range v.entry.frames[0].fn.Params {
+			if t, ok := v.entry.env[p]; ok && t.Sort.Kind == KDT && t.Sort != SSlice && t.Sort != SIface {
+				sks = append(sks, t)
+			}
+		}
+	}
+	cands := append(append([]*Term(nil), st.idx...), sks...)
+	// "last element" split: a skolem constant bounded by  sk < x + 1  is considered separately
+	// below x (the part the hypothesis already covers) and at x (the new element)
+	if kind == "inv" || kind == "post" {
+		for _, sk := range sks {
+			if sk.Op != "var" || !strings.HasPrefix(sk.Str, "sk_") {
+				continue
+			}
+			for _, h := range st.pc {
+				if h.Op == "<" && h.Args[0] == sk {
+					if x, ok := minusOne(h.Args[1]); ok && !mentions(x, sk) {
+						// case A: sk < x
+						a := st.clone()
+						a.assume(Lt(sk, x))
+						ob.Cases = append(ob.Cases, obCase{pc: append([]*Term(nil), a.pc...), goal: goal, cut: st.lastCut, cands: cands})
+						// case B: sk == x
+						m := map[*Term]*Term{sk: x}
+						var pcB []*Term
+						for _, t := range st.pc {
+							if u := Subst(t, m); !u.IsTrue() {
+								pcB = append(pcB, u)
+							}
+						}
+						candsB := append(append([]*Term(nil), cands...), x)
+						ob.Cases = append(ob.Cases, obCase{pc: pcB, goal: Subst(goal, m), cut: st.lastCut, cands: candsB})
+						return
+					}
+				}
+			}
+		}
+	}
+	ob.Cases = append(ob.Cases, obCase{pc: append([]*Term(nil), st.pc...), goal: goal, cut: st.lastCut, cands: cands})
+}
+
+// minusOne: t == x + 1 for some x.
+func minusOne(t *Term) (*Term, bool) {
+	if t.Op == "+" && len(t.Args) == 2 && t.Args[1].IsInt() && t.Args[1].Int.Cmp(big.NewInt(1)) >= 0 {
+		return Sub(t, IntLit(1)), true
+	}
+	return nil, false
 }
 
 func skolemise(g *Term, sks *[]*Term) *Term {
+	if g.Op == "not" && g.Args[0].Op == "exists" {
+		ex := g.Args[0]
+		return skolemise(Forall(ex.Bound, Not(ex.Args[0])), sks)
+	}
 	switch g.Op {
 	case "forall":
 		m := map[*Term]*Term{}
@@ -106,6 +242,27 @@ func skolemise(g *Term, sks *[]*Term) *Term {
 		return Implies(g.Args[0], skolemise(g.Args[1], sks))
 	}
 	return g
+}
+
+// exSkolem replaces existential quantifiers of a hypothesis by fresh constants.
+func exSkolem(h *Term, sks *[]*Term) *Term {
+	switch h.Op {
+	case "exists":
+		m := map[*Term]*Term{}
+		for _, b := range h.Bound {
+			sk := Fresh("ex_"+strings.TrimRight(b.Str, "$q0123456789"), b.Sort)
+			m[b] = sk
+			*sks = append(*sks, sk)
+		}
+		return exSkolem(Subst(h.Args[0], m), sks)
+	case "and":
+		args := make([]*Term, len(h.Args))
+		for i, a := range h.Args {
+			args[i] = exSkolem(a, sks)
+		}
+		return And(args...)
+	}
+	return h
 }
 
 // cover: conjunctions are skolemised conjunct by conjunct (each gets its own constants).
@@ -354,6 +511,10 @@ func (v *Verifier) jump(st *State, b *ssa.BasicBlock) bool {
 			}
 		}
 		// heap havoc
+		v.havocked = map[*Term]bool{}
+		for _, f := range ci.phis {
+			v.havocked[f] = true
+		}
 		for _, m := range spec.Modifies {
 			v.havocNamed(st, fr, m)
 		}
@@ -369,9 +530,20 @@ func (v *Verifier) jump(st *State, b *ssa.BasicBlock) bool {
 		}
 		ci.nAlloc = len(st.allocd)
 		ci.lwAt = st.lw()
+		st.lastCut = len(st.pc)
+		ci.pcLen = len(st.pc)
 		env = v.specEnv(st, fr)
 		for _, inv := range spec.Invariants {
 			st.assume(env.evalBool(inv.Expr))
+		}
+		{
+			hv := v.havocked
+			delete(hv, nil)
+			for _, f := range ci.phis {
+				delete(hv, f) // loop counters stay variables (the invariants bound them)
+			}
+			v.propagateDefs(st, hv, ci.pcLen)
+			v.havocked = nil
 		}
 		if spec.Decreases != nil {
 			ci.measure = env.eval(spec.Decreases.Expr).T
@@ -384,6 +556,7 @@ func (v *Verifier) jump(st *State, b *ssa.BasicBlock) bool {
 	if ci == nil {
 		unsup("back edge into uncut loop")
 	}
+	st.lastCut = ci.pcLen // this loop's own cut, not an inner loop's
 	for i, inv := range spec.Invariants {
 		g := env.evalBool(inv.Expr)
 		v.addOb(fmt.Sprintf("inv:%s:keep#%d", name, i+1), "inv", inv.Text, st, g, false)
@@ -404,6 +577,9 @@ func (v *Verifier) havocNamed(st *State, fr *Frame, name string) {
 		cell := sortOf(elemType(a.Type()))
 		ref := v.val(st, a)
 		f := Fresh(name, cell)
+		if v.havocked != nil {
+			v.havocked[f] = true
+		}
 		for _, t := range typeInv(f, elemType(a.Type()), 0) {
 			st.assume(t)
 		}
@@ -412,6 +588,9 @@ func (v *Verifier) havocNamed(st *State, fr *Frame, name string) {
 	}
 	if cell, ref, et, ok := evalModTarget(v.specEnv(st, fr), name); ok {
 		f := Fresh("cell", cell)
+		if v.havocked != nil {
+			v.havocked[f] = true
+		}
 		if et != nil {
 			for _, t := range typeInv(f, et, 0) {
 				st.assume(t)
@@ -421,7 +600,11 @@ func (v *Verifier) havocNamed(st *State, fr *Frame, name string) {
 		return
 	}
 	cell := v.cellSortByName(v.pkgOf(fr.fn), name)
-	st.setHeap(cell, Fresh(heapName(cell), heapSort(cell)))
+	nh := Fresh(heapName(cell), heapSort(cell))
+	if v.havocked != nil {
+		v.havocked[nh] = true
+	}
+	st.setHeap(cell, nh)
 }
 
 func (v *Verifier) pkgOf(fn *ssa.Function) *types.Package {
@@ -462,6 +645,27 @@ func (v *Verifier) cellSortByName(pkg0 *types.Package, name string) *Sort {
 			return ArraySort(SInt, SInt)
 		}
 		return SInt
+	}
+	if strings.HasPrefix(name, "map[") {
+		// map[K]V
+		depth, j := 0, -1
+		for i, c := range name {
+			if c == '[' {
+				depth++
+			}
+			if c == ']' {
+				depth--
+				if depth == 0 {
+					j = i
+					break
+				}
+			}
+		}
+		if j > 0 {
+			ks := v.cellSortByName(pkg0, name[4:j])
+			vs := v.cellSortByName(pkg0, name[j+1:])
+			return mapObjSort(ks, vs)
+		}
 	}
 	var T types.Type
 	switch name {
@@ -907,9 +1111,9 @@ func (v *Verifier) binop(st *State, in *ssa.BinOp) *Term {
 		case token.SUB:
 			return mk("-", SReal, x, y)
 		case token.MUL:
-			return mk("*", SReal, x, y)
+			return realMul(x, y)
 		case token.QUO:
-			return mk("/", SReal, x, y)
+			return realDiv(x, y)
 		case token.LSS:
 			return mk("<", SBool, x, y)
 		case token.LEQ:
@@ -1343,4 +1547,25 @@ func (v *Verifier) atTopReturn(st *State, rs []*Term) {
 	if onTopReturn != nil {
 		onTopReturn(v, st, rs)
 	}
+}
+
+// realMul / realDiv: exact on literals, otherwise the uninterpreted real_mul / real_div.
+func realMul(x, y *Term) *Term {
+	if x.Op == "real" && y.Op == "real" {
+		a, _ := new(big.Rat).SetString(x.Str)
+		b, _ := new(big.Rat).SetString(y.Str)
+		return RealLit(new(big.Rat).Mul(a, b).String())
+	}
+	return App("real_mul", SReal, x, y)
+}
+
+func realDiv(x, y *Term) *Term {
+	if x.Op == "real" && y.Op == "real" {
+		a, _ := new(big.Rat).SetString(x.Str)
+		b, _ := new(big.Rat).SetString(y.Str)
+		if b.Sign() != 0 {
+			return RealLit(new(big.Rat).Quo(a, b).String())
+		}
+	}
+	return App("real_div", SReal, x, y)
 }
